@@ -14,6 +14,7 @@
 EXTENDS TxRules, SequencesExt, FiniteSetsExt, Json
 
 CONSTANTS NBlocks, WFar, Emit,
+          ForceT,     \* TRUE: the first block commits T (simulation configurations: every context has the typed cell t1)
           TsSteps     \* distances above the past-median a block timestamp may take
 
 VARIABLES ts, sched, pc
@@ -39,7 +40,9 @@ ChooseTxs ==
   /\ \E s \in SUBSET {n \in Rng(Names) : sched[n] = 0} :
        /\ ("Y" \in s => (sched["X"] # 0 \/ "X" \in s))
        /\ Cardinality(s) <= 2
-       /\ ("T" \in s => Cardinality(s) = 1)     \* T runs two script groups: alone it fills the block's cycle limit
+       /\ ((ForceT /\ Len(ts) = 1) => s = {"T"})
+       /\ ("T" \in s => Cardinality(s) = 1 /\ Len(ts) = 1)   \* T runs two script groups: alone it fills the block's cycle limit;
+                                                              \* only in the first block (keeps the exhaustive configurations small)
        /\ sched' = [n \in Rng(Names) |-> IF n \in s THEN Len(ts) ELSE sched[n]]
   /\ pc' = IF Len(ts) = NBlocks THEN "done" ELSE "ts"
   /\ UNCHANGED ts
